@@ -9,8 +9,10 @@ package rules
 
 import (
 	"fmt"
+	"go/constant"
 	"go/token"
 	"go/types"
+	"strings"
 
 	"golang.org/x/tools/go/ssa"
 
@@ -390,6 +392,20 @@ func layoutReaders(r *core.Run) int {
 				cases = append(cases, valueCases(r, fn, ret.Results[0], b, nil, ret.Pos(), nil, 0)...)
 			}
 		}
+		unread := false
+		for _, c := range cases {
+			if c.other != "" {
+				unread = true
+			}
+		}
+		if unread {
+			// the composition may be a loop over the width in a shared helper (readUint(size)): read it off the helper's
+			// paths with the width bound to the constant of this call (peval.go)
+			if k, ok := peLayoutCheck(r, tc.name, tc.width, fn); ok {
+				n += k
+				continue
+			}
+		}
 		composed := 0
 		widthSeen := map[*ssa.Call]bool{}
 		for _, c := range cases {
@@ -595,4 +611,112 @@ func zeroOnlyWhenShort(fn *ssa.Function, c layCase, width int64) (bool, string) 
 		}
 	}
 	return false, fmt.Sprintf("zero is returned under %v, expected exactly: fewer than %d bytes were read", factStrings(fs), width)
+}
+
+// peLayoutCheck: `return uintN(r.helper(K))` where the helper reads K bytes and composes them in a loop over its
+// size parameter. With the size bound to K every loop is concrete; the helper's paths give, per byte order, the
+// composed index->shift map, and the conditions on the number of bytes read under which zero / the composition is
+// returned. Checked: the bytes come from ReadBytes(K); each composing path's layout matches the byte order the path
+// assumed; the composition is returned only when at least K bytes were read (so every index is in range) and zero
+// only when fewer were. Returns the number of composing cases decided, and whether the method has this shape.
+func peLayoutCheck(r *core.Run, name string, width int64, fn *ssa.Function) (int, bool) {
+	var call *ssa.Call
+	for _, b := range fn.Blocks {
+		ret, ok := lastInstr(b).(*ssa.Return)
+		if !ok || len(ret.Results) == 0 {
+			continue
+		}
+		c, isCall := stripConv(ret.Results[0]).(*ssa.Call)
+		if !isCall || call != nil {
+			return 0, false
+		}
+		call = c
+	}
+	if call == nil || call.Call.IsInvoke() {
+		return 0, false
+	}
+	h := call.Call.StaticCallee()
+	if h == nil || h.Signature.Recv() == nil || recvName(h) != recvName(fn) || (h.Object() != nil && h.Object().Exported()) || len(call.Call.Args) < 2 {
+		return 0, false
+	}
+	bind := map[int]interface{}{}
+	for i, a := range call.Call.Args[1:] {
+		k, isK := a.(*ssa.Const)
+		if !isK || !ssaIntConst(k) {
+			return 0, false
+		}
+		bind[i+1] = k.Value
+	}
+	paths, ok := peFunc(r, h, bind)
+	if !ok || len(paths) == 0 {
+		return 0, false
+	}
+	composed := 0
+	for _, pt := range paths {
+		if pt.outcome != "return" || len(pt.ret) != 1 {
+			r.Unknown(name+" composition", call.Pos(), "a path of "+h.Name()+" does not end in a return of one value")
+			return 0, true
+		}
+		// what the path assumed
+		order := ""
+		short, enough := false, false
+		for _, c := range pt.conds {
+			switch {
+			case strings.HasPrefix(c.sym, "order="):
+				o := strings.TrimPrefix(c.sym, "order=")
+				if c.op == token.NEQ {
+					o = map[string]string{"LittleEndian": "BigEndian", "BigEndian": "LittleEndian"}[o]
+				}
+				order = o
+			case strings.HasPrefix(c.sym, "len:"):
+				// len(data) op k
+				switch {
+				case c.op == token.LSS && c.k <= width, c.op == token.LEQ && c.k < width:
+					short = true
+				case c.op == token.GEQ && c.k >= width, c.op == token.GTR && c.k >= width-1:
+					enough = true
+				}
+			}
+		}
+		// the read: ReadBytes(width)
+		var rb *peEvent
+		for i := range pt.events {
+			if pt.events[i].name == "ReadBytes" {
+				rb = &pt.events[i]
+			}
+		}
+		if rb == nil || len(rb.args) != 2 {
+			r.Unknown(name+" shape", call.Pos(), "no ReadBytes call on a path of "+h.Name())
+			return 0, true
+		}
+		if k, isK := peInt(rb.args[1]); !isK || k != width {
+			r.Fail(name+" reads width bytes", rb.pos, fmt.Sprintf("ReadBytes is not called with %d for a %d-byte integer", width, width))
+			continue
+		}
+		switch v := pt.ret[0].(type) {
+		case constant.Value:
+			z, isZ := peInt(v)
+			r.Check(isZ && z == 0 && short, name+" short-read guard", call.Pos(), "", "a constant is returned on a path that has not established that fewer than the width bytes were read")
+		case pTerm:
+			composed++
+			if order == "" {
+				order = "BigEndian"
+			}
+			lay := layoutName(v.m, width)
+			tag := name + " " + order
+			if width > 1 {
+				r.Check(lay == order || lay == "both", tag+" layout", call.Pos(), fmt.Sprint(v.m), fmt.Sprintf("bytes are combined as index->shift %v on the %s path, which is %s", v.m, order, lay))
+			} else {
+				r.Check(lay == "both", name+" value", call.Pos(), "", fmt.Sprintf("a single-byte read must return data[0], found index->shift %v", v.m))
+			}
+			src, isCall := v.data.(*ssa.Call)
+			fromRead := isCall && src.Pos() == rb.pos
+			r.Check(fromRead, tag+" composes the bytes that were read", call.Pos(), "", "the composed bytes do not come from the ReadBytes result")
+			r.Check(enough, tag+" bounds", call.Pos(), "", fmt.Sprintf("the bytes are indexed on a path that has not established len(data) >= %d: a back end that returns fewer bytes makes an index out of range", width))
+		default:
+			r.Unknown(name+" composition", call.Pos(), "result of "+h.Name()+" is neither zero nor an OR of shifted bytes of the slice that was read")
+		}
+	}
+	r.Check(composed > 0, name+" composes bytes", call.Pos(), "", "no path of "+h.Name()+" composes the bytes read")
+	return composed, true
 }
